@@ -691,7 +691,7 @@ P_C01(c) ==
 \* (agent -> add_agent_css, user -> add_css, author -> the document's <style>); rich lines route
 CssOf(c, run) == LET doc == HasOp(run.cfg, "doccss") IN
                  [agent |-> c.meta.css.agent, user |-> c.meta.css.user,
-                  author |-> IF doc THEN c.meta.css.author ELSE <<>>, doc |-> doc]
+                  author |-> IF doc THEN c.meta.css.author ELSE <<>>, doc |-> doc, decorate |-> CfgOf(run.cfg).decorate]
 \* letters of V(d) with the colour / background they must show: that of the nearest enclosing element
 \* with a winning declaration (hidden subtrees contribute nothing): sequence of <<code, fg, bg>>
 RECURSIVE ExpColours(_, _, _, _, _, _)
@@ -712,7 +712,9 @@ ExpColours(dom, n, p, css, fg, bg) ==
 LastTag(tags, kind) == LET idx == {i \in 1..Len(tags) : tags[i][1] = kind} IN
                        IF idx = {} THEN <<>> ELSE LET t == tags[CHOOSE m \in idx : \A q \in idx : q <= m] IN <<t[2], t[3], t[4]>>
 ObsColours(res) ==
-  LET items == SelectSeq(Concat(res.lines), LAMBDA x : ~IsFrag(x) /\ IsLetterCode(x[1])) IN
+  \* (generated ::before / ::after texts are written in Greek letters and are not part of the comparison:
+  \*  pseudo-elements are outside C19 / C20; where they go is checked against the specification as drift)
+  LET items == SelectSeq(Concat(res.lines), LAMBDA x : ~IsFrag(x) /\ IsLetterCode(x[1]) /\ x[1] \notin 945..969) IN
   [i \in 1..Len(items) |-> <<items[i][1], LastTag(items[i][3], "Fg"), LastTag(items[i][3], "Bg")>>]
 \* every inline style of the document was abstracted (canonical spelling), else the case is out of scope
 InlineOK(dom) == LET ns == NodesSeq(dom) IN
